@@ -442,7 +442,7 @@ func expectCopyCalls(o [2]*oracle, f []string) []string {
 
 		return append(out, "Flush")
 	}
-	n := atoi(f[5])
+	n := effBatch(f[5])
 	out = append(out, "Batched")
 	for i := 1; i <= size; i++ {
 		out = append(out, "bSet")
